@@ -672,4 +672,108 @@ theorem composite_verified_iff (ps : List (Provider S G)) (a : Api) (g : G) (s :
       · simpa using h
     rw [ih _ _ hp2 he2]
 
+
+/-- **`composite_all_or_nothing`** — `CompositeController` of any members `ps` after a member `p`:
+    (1) without error / panic the composite is *verified* iff every member is;
+    (2) an error of `p` ends `EnsureRoutes`: the members after it are not called in that call;
+    (3) a `p` that is merely not verified does not: they are still called, on what `p` left;
+    (4) `Finalise` goes on after an error of `p`, finalises the remaining members and returns the error at the end. -/
+theorem composite_all_or_nothing (p : Provider S G) (ps : List (Provider S G)) (a : Api) (g : G) (s : S) :
+    (((composite (p :: ps)).ensure a g s).panic = false → ((composite (p :: ps)).ensure a g s).err = false →
+      (((composite (p :: ps)).ensure a g s).flag = true ↔ allVerified (p :: ps) a g s)) ∧
+    ((p.ensure a g s).panic = false → (p.ensure a g s).err = true →
+      (composite (p :: ps)).ensure a g s = { p.ensure a g s with flag := false }) ∧
+    ((p.ensure a g s).panic = false → (p.ensure a g s).err = false →
+      ((composite (p :: ps)).ensure a g s).g = ((composite ps).ensure (p.ensure a g s).a (p.ensure a g s).g s).g) ∧
+    ((p.finalise a g).panic = false → ((composite ps).finalise (p.finalise a g).a (p.finalise a g).g).panic = false →
+      ((composite (p :: ps)).finalise a g).g = ((composite ps).finalise (p.finalise a g).a (p.finalise a g).g).g ∧
+      ((composite (p :: ps)).finalise a g).err =
+        ((p.finalise a g).err || ((composite ps).finalise (p.finalise a g).a (p.finalise a g).g).err)) :=
+  ⟨fun hp he => composite_verified_iff (p :: ps) a g s hp he,
+   fun hp he => seq_error_stops p (composite ps) a g s hp he,
+   fun hp he => (seq_unverified_continues p (composite ps) a g s hp he).1,
+   fun hp hq => ⟨(seq_finalise_continues p (composite ps) a g hp hq).1, (seq_finalise_continues p (composite ps) a g hp hq).2.1⟩⟩
+
+/-! ## C05 / C06 — `read_fault_reported`, every Manager call -/
+
+theorem read_fault_reported_patch (c : XCtx S) (a : Api) (n : XNet G) (m : Mem)
+    (hr : readFailed a (patchStableServiceX c a n m).a = true) : (patchStableServiceX c a n m).err = true := by
+  generalize ho : patchStableServiceX c a n m = o at hr
+  unfold patchStableServiceX at ho
+  by_cases href : c.hasRef = true
+  · simp only [href, not_true_eq_false, if_false] at ho
+    by_cases hng : c.noGen = true
+    · simp only [hng, if_true, XOut.same] at ho
+      subst ho; rw [readFailed_self] at hr; cases hr
+    · simp only [hng, Bool.false_eq_true, if_false] at ho
+      rcases Api.read_cases a with ⟨hrd, _, _⟩ | ⟨hrd, hr2⟩
+      · rw [show a.read = (a.read.1, a.read.2) from rfl, hrd] at ho
+        simp only [if_true, XOut.same] at ho
+        subst ho; rfl
+      · rw [show a.read = (a.read.1, a.read.2) from rfl, hrd] at ho
+        simp only [Bool.false_eq_true, if_false] at ho
+        have key : ∀ x : Api, x.armed = a.read.2.armed → readFailed a x = false := by
+          intro x hx; unfold readFailed; rw [hx, hr2]; cases a.armed <;> rfl
+        split at ho
+        · simp only [XOut.same] at ho; subst ho; rfl
+        · split at ho
+          · split at ho
+            · simp only [XOut.same] at ho; subst ho; rfl
+            · rename_i a1 hsp
+              subst ho
+              rw [key a1 (Api.spend_armed hsp)] at hr; cases hr
+          · subst ho
+            rw [key _ rfl] at hr; cases hr
+  · have href' : c.hasRef = false := by simpa using href
+    simp only [href', Bool.false_eq_true, not_false_eq_true, if_true, XOut.same] at ho
+    subst ho; rw [readFailed_self] at hr; cases hr
+
+section lawful
+variable (ops : StratOps S) {P : Provider S G} {Inv : G → Prop} {spec : G → S → Prop} {clean : G → Prop}
+  {μ : G → S → Nat} {bound : Nat} (hL : LawfulProvider P Inv spec clean μ bound)
+include hL
+
+theorem read_fault_reported_routeAll (c : XCtx S) (a : Api) (n : XNet G) (m : Mem)
+    (hp : (routeAllToNewX ops (some P) c a n m).panic = false)
+    (hr : readFailed a (routeAllToNewX ops (some P) c a n m).a = true) :
+    (routeAllToNewX ops (some P) c a n m).err = true := by
+  unfold routeAllToNewX at hp hr ⊢
+  by_cases href : c.hasRef = true
+  · simp only [href, not_true_eq_false, if_false] at hp hr ⊢
+    cases hpp : (P.ensure a n.g (ops.routeAll c.strategy)).panic
+    · simp only [hpp, Bool.false_eq_true, if_false] at hp hr ⊢
+      obtain ⟨f1, _⟩ := hL.read_fault_ensure a n.g (ops.routeAll c.strategy) hpp
+      cases he : (P.ensure a n.g (ops.routeAll c.strategy)).err
+      · simp only [he, Bool.false_eq_true, if_false] at hr ⊢
+        have := f1 hr; rw [he] at this; cases this
+      · simp [he]
+    · simp [hpp, XOut.panicked] at hp
+  · have href' : c.hasRef = false := by simpa using href
+    simp [href', XOut.same, readFailed_self] at hr
+
+/-- **C05 / C06 (`read_fault_reported`)** — for every lawful provider and **every** Manager call: if some API read
+    of the call failed with an error other than NotFound (at whatever position: the Manager's own `Get` of a
+    Service or any `Get` inside the provider, any member of a composite, any custom ref), the call returns an
+    error.  A call that returns an error is never taken for complete (`done = true` / `retry = false` are only
+    looked at when `err = nil`), so the clean-up cursor cannot advance past a resource that could not be read. -/
+theorem read_fault_reported (c : XCtx S) (a : Api) (n : XNet G) (m : Mem) (hi : Inv n.g) :
+    ((doTrafficRoutingX ops (some P) c a n m).panic = false →
+      readFailed a (doTrafficRoutingX ops (some P) c a n m).a = true → (doTrafficRoutingX ops (some P) c a n m).err = true) ∧
+    ((finalisingTrafficRoutingX (some P) c a n m).panic = false →
+      readFailed a (finalisingTrafficRoutingX (some P) c a n m).a = true →
+      (finalisingTrafficRoutingX (some P) c a n m).err = true ∧ (finalisingTrafficRoutingX (some P) c a n m).done = false) ∧
+    (readFailed a (restoreStableServiceX c a n m).a = true → (restoreStableServiceX c a n m).err = true) ∧
+    ((restoreGatewayX (some P) c a n m).panic = false → readFailed a (restoreGatewayX (some P) c a n m).a = true →
+      (restoreGatewayX (some P) c a n m).err = true) ∧
+    (readFailed a (removeCanaryServiceX c a n m).a = false) ∧
+    (readFailed a (patchStableServiceX c a n m).a = true → (patchStableServiceX c a n m).err = true) ∧
+    ((routeAllToNewX ops (some P) c a n m).panic = false → readFailed a (routeAllToNewX ops (some P) c a n m).a = true →
+      (routeAllToNewX ops (some P) c a n m).err = true) :=
+  ⟨read_fault_reported_doTR ops hL c a n m, read_fault_reported_finalising hL c a n m hi,
+   (read_fault_reported_tasks hL c a n m).1, (read_fault_reported_tasks hL c a n m).2.1,
+   (read_fault_reported_tasks hL c a n m).2.2, read_fault_reported_patch c a n m,
+   read_fault_reported_routeAll ops hL c a n m⟩
+
+end lawful
+
 end RV.Props.TrafficX
